@@ -16,6 +16,7 @@ def opLabels : String → Option (List CLabel)
   | "r" => some [.readerGotParked, .readerArm]
   | "c" => some [.callerLeave]
   | "s" => some [.readerGotStray, .readerArm]
+  | "g" => some [.readerGotStray, .readerArm, .callerAdd, .callerArm]  -- a stray reply, then a query, with the reader's deadline call delayed by the harness
   | "x" => some [.readerFail]
   | _ => none
 
